@@ -355,3 +355,9 @@ Definition forin_head (pre : expr) (next : tag) : bool :=
   | Some _ => (tag_eqb next TIn || tag_eqb next TComma)%bool
   | None => false
   end.
+
+(* no statement of the program (rule bodies, function bodies; nested blocks included,
+   statements inside match-expression arms not included) has a misattached else *)
+Definition program_else_ok (prog : program) : bool :=
+  (forallb (fun r => negb (misattached_else (rbody r))) (prules prog) &&
+   forallb (fun f => negb (misattached_else (fbody f))) (pfuncs prog))%bool.
